@@ -1201,12 +1201,31 @@ def main():
             emit_struct_check(o, t, fam.types)
         o.w()
 
+    def max_array(idents):
+        """largest array length decoded by a Read impl reachable from the given types"""
+        best = 0
+        for i in idents:
+            t = fam.types[i]
+            if not isinstance(t, Struct):
+                continue
+            for f in t.fields:
+                if f.kind in ("u8arr", "arr") and "R" in t.derive:
+                    best = max(best, f.n)
+                elif f.kind == "struct" and "R" in t.derive:
+                    best = max(best, max_array([f.ref]))
+        return best
+
     def harness(name, tier_, idents, what, expect_fail=None):
         kinds = sorted({"struct" if isinstance(fam.types[i], Struct) else "enum" for i in idents})
         o.w("//@ harness: %s" % name)
         o.w("//@ property: C19")
         o.w("//@ tier: %s" % tier_)
         o.w("//@ unwind: 66")
+        amax = max_array(idents)
+        if amax:
+            # [T; N]::unpack_from_slice = chunks_exact().take(N).map().collect(): CBMC cannot see the trip
+            # count of the nested iterator loops; N + 2 is enough (unwinding assertions are on)
+            o.w("//@ unwindset: ChunksExact:%d" % (amax + 2))
         o.w("//@ timeout: 600")
         fns = []
         for i in idents:
